@@ -188,7 +188,9 @@ func (l *List) M__bool__() (Object, error) {
 }
 
 func (l *List) M__iter__() (Object, error) {
-	return NewIterator(Tuple(l.Items)), nil
+	// iterate the live list, not a snapshot of its items: items appended
+	// or deleted during the iteration are seen as python defines
+	return NewIterator(l), nil
 }
 
 func (l *List) M__getitem__(key Object) (Object, error) {
